@@ -1,0 +1,13 @@
+//go:build verif
+
+// Verification contracts (comments only; compiled only with -tags verif).
+// Checked by /verif/bin/govc; see /verif/DESIGN.md.
+
+package blockrelay
+
+//@ // C16: a document is either refused or yields a configuration OBJECT: never an interface value that holds a nil
+//@ // pointer (which every later request for proposer settings would dereference; the block relay's "no configuration"
+//@ // test `== nil` does not see such a value)
+//@ func UnmarshalJSON
+//@   ensures result1 == nil ==> !isnil(result0) && (hastype(result0, "*v1.ExecutionConfig") ==> unbox(result0, "*v1.ExecutionConfig") != nil) && (hastype(result0, "*v2.ExecutionConfig") ==> unbox(result0, "*v2.ExecutionConfig") != nil)
+//@   ensures result1 != nil ==> isnil(result0)
